@@ -196,27 +196,36 @@ def rule_m5(chk: Check, ix: Index, rule_id: str = "M5-indent-balance"):
     if len(fors) != 1:
         raise AnalysisError("with-macro capture loop not found")
     loop = fors[0]
-    branches = []
-    cur = loop.body[0] if loop.body and isinstance(loop.body[0], ast.If) else None
-    while cur is not None:
-        branches.append((norm_stmt(cur.test), cur.body))
-        cur = cur.orelse[0] if len(cur.orelse) == 1 and isinstance(cur.orelse[0], ast.If) else None
-    bmap = {t: b for t, b in branches}
-    ind = next((b for t, b in branches if "Token.INDENT" in t), None)
-    ded = next((b for t, b in branches if "Token.DEDENT" in t), None)
+    # decisions of one loop iteration as a path set (blind to elif-vs-if and else nesting)
+    from .pyflow import stmt_paths
+    try:
+        paths = stmt_paths(loop.body)
+    except AnalysisError as e:
+        raise AnalysisError(f"with-macro capture loop is not straight-line decision code: {e}")
+
+    def when(pth, needle, truth=True):
+        return any(x[0] == "cond" and needle in x[1] and x[2] is truth for x in pth)
+
+    def effects(pth):
+        return [x[1] for x in pth if x[0] == "do"]
+
+    ind = [pth for pth in paths if when(pth, "Token.INDENT")]
+    ded = [pth for pth in paths if when(pth, "Token.DEDENT")]
     chk.count(rule_id)
-    ok_ind = ind is not None and any(isinstance(s, ast.If) and "not is_indented" in norm_stmt(s.test) and
-                                     any(isinstance(x, ast.Continue) for x in s.body) and
-                                     any(norm_stmt(x) == "is_indented = True" for x in s.body) for s in ind) and \
-        any(norm_stmt(s) == "indent += 1" for s in ind)
+    # INDENT: the first one right after the header line is swallowed and marks the block as indented; later ones are counted
+    first = [pth for pth in ind if "is_indented = True" in effects(pth)]
+    later = [pth for pth in ind if "is_indented = True" not in effects(pth)]
+    ok_ind = bool(first) and bool(later) and all(pth[-1][1] == "continue" and "indent += 1" not in effects(pth) and
+                                                  (when(pth, "not is_indented", True) or when(pth, "is_indented", False)) for pth in first) and \
+        all("indent += 1" in effects(pth) for pth in later)
     chk.require(ok_ind, rule_id, "consume_with_macro_params:INDENT", f.where,
                 "the INDENT that opens the block must be swallowed once, nested INDENTs counted")
     chk.count(rule_id)
-    ok_ded = False
-    if ded is not None and len(ded) == 1 and isinstance(ded[0], ast.If) and norm_stmt(ded[0].test) == "indent":
-        body, orelse = ded[0].body, ded[0].orelse
-        ok_ded = any(norm_stmt(s) == "indent -= 1" for s in body) and any(isinstance(s, ast.Continue) for s in body) and \
-            any(norm_stmt(s) == "self._with_macro = False" for s in orelse) and any(isinstance(s, ast.Break) for s in orelse)
+    pos = [pth for pth in ded if any(x[0] == "cond" and x[1] == "indent" and x[2] is True for x in pth)]
+    zero = [pth for pth in ded if any(x[0] == "cond" and x[1] == "indent" and x[2] is False for x in pth)]
+    ok_ded = bool(pos) and bool(zero) and len(pos) + len(zero) == len(ded) and \
+        all(effects(pth) == ["indent -= 1"] and pth[-1][1] == "continue" for pth in pos) and \
+        all(effects(pth) == ["self._with_macro = False"] and pth[-1][1] == "break" for pth in zero)
     chk.require(ok_ded, rule_id, "consume_with_macro_params:DEDENT", f.where,
                 "a DEDENT closes a nested level while the counter is positive (swallowed), and ends the capture — flag off, "
                 "token not forwarded — exactly when the counter is zero")
